@@ -33,15 +33,18 @@ import (
 //   - the byte ledger / EOF / reset oracle of runConn for every connection.
 
 type groupPlan struct {
-	Server    string     `json:"server"`  // front server protocol (not the tunnel: its destination is per server)
-	Policy    string     `json:"policy"`  // round-robin | random
-	Members   []string   `json:"members"` // protocol of each member / of back-i
-	ViaRoute  bool       `json:"via_route,omitempty"`
-	TMs       int        `json:"t_ms"`
-	DialerTFO bool       `json:"dialer_tfo,omitempty"`
-	Auth      bool       `json:"auth,omitempty"`
-	AES256    bool       `json:"aes256,omitempty"`
-	Conns     []connPlan `json:"conns"`
+	Server    string   `json:"server"`  // front server protocol (not the tunnel: its destination is per server)
+	Policy    string   `json:"policy"`  // round-robin | random
+	Members   []string `json:"members"` // protocol of each member / of back-i
+	ViaRoute  bool     `json:"via_route,omitempty"`
+	TMs       int      `json:"t_ms"`
+	DialerTFO bool     `json:"dialer_tfo,omitempty"`
+	Auth      bool     `json:"auth,omitempty"`
+	AES256    bool     `json:"aes256,omitempty"`
+	// the instance runs with a debug-level logger (encoded to io.Discard)
+	DebugFront bool       `json:"debug_front,omitempty"`
+	DebugBack  bool       `json:"debug_back,omitempty"`
+	Conns      []connPlan `json:"conns"`
 }
 
 func (g groupPlan) casePlan() casePlan {
@@ -62,6 +65,8 @@ func drawGroup(rt *rapid.T) groupPlan {
 	g.DialerTFO = rapid.Bool().Draw(rt, "dialer-tfo")
 	g.Auth = rapid.Bool().Draw(rt, "auth")
 	g.AES256 = rapid.Bool().Draw(rt, "aes256")
+	g.DebugFront = rapid.Bool().Draw(rt, "debug-front")
+	g.DebugBack = rapid.Bool().Draw(rt, "debug-back")
 	k := rapid.IntRange(2*n+1, 9).Draw(rt, "conns") // at least two full cycles and one more
 	for i := 0; i < k; i++ {
 		p := drawConn(rt, 1440, false)
@@ -167,7 +172,7 @@ func runGroupCase(g groupPlan, workDir string) (res groupResult) {
 	for i := range targets {
 		taddrs[i] = targets[i].addr
 	}
-	back, err := tcpsvc.Start(groupBackConfig(g), n, true)
+	back, err := tcpsvc.StartWith(groupBackConfig(g), n, true, tcpsvc.Options{DebugLog: g.DebugBack})
 	if err != nil {
 		res.harnessErr = "start back instance: " + err.Error()
 		return
@@ -186,7 +191,7 @@ func runGroupCase(g groupPlan, workDir string) (res groupResult) {
 		}
 		defer os.Remove(upskPath)
 	}
-	front, err := tcpsvc.Start(groupFrontConfig(g, taddrs, ports, backAddrs, upskPath), 1, true)
+	front, err := tcpsvc.StartWith(groupFrontConfig(g, taddrs, ports, backAddrs, upskPath), 1, true, tcpsvc.Options{DebugLog: g.DebugFront})
 	if err != nil {
 		res.harnessErr = "start front instance: " + err.Error()
 		return
@@ -311,7 +316,8 @@ var recGroup = ev.New("C13", "client-group",
 		"Oracle: after every connection exactly one member's upstream statistics change, by that connection's ledger; round-robin: served members are consecutive in configuration order, cyclically; "+
 		"front statistics charge every connection once to the right user; plus the per-connection ledger/EOF oracle. "+
 		"Evaluation = one case. Non-trivial: round-robin (wrap-around observed by construction) or random with >=2 distinct members observed; distinct key = configuration + served sequence").
-	Require("policy:round-robin", "policy:random", "members:2", "members:3", "group-as-default", "group-via-route", "heterogeneous-members")
+	Require("policy:round-robin", "policy:random", "members:2", "members:3", "group-as-default", "group-via-route", "heterogeneous-members",
+		"front-logger-debug:true", "front-logger-debug:false", "back-logger-debug:true", "back-logger-debug:false")
 
 func TestRelayClientGroup(t *testing.T) {
 	dir := workDir(t)
@@ -341,6 +347,7 @@ func TestRelayClientGroup(t *testing.T) {
 			distinct[m] = true
 		}
 		labels := []string{"policy:" + g.Policy, fmt.Sprintf("members:%d", len(g.Members)), "server:" + g.Server}
+		labels = append(labels, fmt.Sprintf("front-logger-debug:%v", g.DebugFront), fmt.Sprintf("back-logger-debug:%v", g.DebugBack))
 		if g.ViaRoute {
 			labels = append(labels, "group-via-route")
 		} else {
